@@ -12,6 +12,7 @@ import (
 type propFn func(*Check)
 
 var propTable = map[string]propFn{
+	"C01": checkC01,
 	"C03": checkC03,
 	"C04": checkC04,
 	"C05": checkC05,
